@@ -780,7 +780,7 @@ pub fn run(tier: &Tier, _args: &[String]) -> i32 {
     out.coverage = json!({
         "evaluations": evaluations,
         "distinct_nontrivial": distinct,
-        "states": 6,
+        "states": states().len(),
         "transitions": evaluations,
         "traces_validated_against_impl": evaluations,
         "rule": "every request of the finite menus (ROA deltas = all multisets of <=2 (quick) / <=4 (thorough) entries out of 11 additions and 3 removals; ASPA set/delete/provider updates; BGPsec add (valid and corrupted CSR)/delete; child add/update with 6 resource sets x 2 handles) x 8 CA states (empty, configured, configured-then-shrunk, configured-then-AS-lost, aggregated, rolling, rolled, two parents); each executed on a forked copy; non-trivial = every case (each has an accept/refuse expectation and a before/after comparison)",
